@@ -9,14 +9,18 @@
    function of the number of queued messages and of the table size.  [Ok (st', false)] with [at_prompt st'] means: no
    exit, no abort, no memory error, no hang, the three lists empty -- the prompt is printed next.
 
-   FULL    : C19_rules_single and its corollaries (one target, ANY depth, any failing hosts, any schedule),
+   FULL    : C19_always_answers / C19_wf_power / C19_sequence (ANY number of targets on a line, any depth, any failing hosts,
+             any release schedule: termination with the model's own fuel, exactly one result line per targeted known plug,
+             one report per unknown name, no lost waiter, prompt and well-formedness restored; composes over sessions),
+             C19_rules_single and its corollaries (one target: the printed line and the statuses ARE the documented ones),
              C19_on_parent_and_child_refused (any number of targets), C19_survives_* (error reports), C19_dangling_ancestor.
-   OPEN    : the same refinement for SEVERAL targets on one line (C19_rules below, in a comment).
+   OPEN    : the TEXT of the result lines and the status table for SEVERAL targets on one line (C19_rules below, in a comment).
    REFUTED : with the F20 repair flags false a waiter is lost (C19_no_lost_waiter_needs_repair). *)
 From Coq Require Import List NArith ZArith Bool Permutation.
 From PM Require Import Base.Bytes Base.Outcome Gen.GenRfp Model.Redfish Spec.RedfishSpec Model.RedfishView
   Proofs.RedfishBase Proofs.RedfishSteps Proofs.RedfishSingle Proofs.RedfishMgmt Proofs.RedfishRules Proofs.RedfishTheorems
-  Proofs.RedfishPhased Proofs.RedfishFaults Proofs.RedfishReach Proofs.RedfishExamples.
+  Proofs.RedfishPhased Proofs.RedfishFaults Proofs.RedfishReach Proofs.RedfishExamples
+  Proofs.RedfishInv Proofs.RedfishLive Proofs.RedfishDrain Proofs.RedfishStart Proofs.RedfishMulti.
 Import ListNotations.
 
 (* ------------------------------------------------------------------------------------------------------------------
@@ -248,6 +252,64 @@ Proof. split; [apply ts_covers_b; reflexivity|]. split; [apply at_prompt_b; refl
 Print Assumptions C19_wf_single.
 
 (* ------------------------------------------------------------------------------------------------------------------
+   Liveness and "one answer each" for ANY number of targets on one line (duplicates, unknown names, related targets, several
+   roots, targets below failing hosts), any depth, ANY release schedule [sched] of the delayed status polls:
+   run_line returns Ok with the model's own fuel [fuel_for] (no Hang -- in particular not site_lost_waiter --, no Abort, no
+   Exit, no MemErr), the helper is back at its prompt, the plug names of the result lines are a permutation of the targeted
+   known plugs (exactly one line each, duplicates counted), every unknown name is reported once, in order, and the
+   configuration is untouched.  ([answered st'] = plug names of the lines tagged TResult, [reported_unknown st'] = names in
+   the "unknown plug specified" lines.)
+   Proof: Proofs/RedfishLive.v (invariant: activecmds = stale ++ todo ++ new during a pass; the loop is synchronous in the
+   depth of the plugs, so a stale entry of the pass copy is never mistaken for a live handler; every waiter has a live
+   handler on an ancestor), Proofs/RedfishDrain.v (measure: table size - current depth + sum of message weights, decreasing
+   in every shell-loop iteration under any schedule), Proofs/RedfishStart.v (the command part establishes the invariant). *)
+Theorem C19_always_answers : forall hlc st ln sched c ts,
+  at_prompt st -> ts_covers st -> power_line hlc st ln = Some (c, ts) -> in_domain st c ts = true ->
+  exists st', run_line hlc st ln sched = Ok (st', false) /\ at_prompt st' /\ ts_covers st' /\ same_cfg st' st /\
+              Permutation (answered st') (known_targets st ts) /\ reported_unknown st' = unknown_targets st ts.
+Proof. exact always_answers. Qed.
+Example C19_always_answers_nonvacuous :
+  (* three levels; L twice, its ancestor R, T below the failing host's S, an unknown name; polls released one per pass *)
+  at_prompt ex_on /\ ts_covers ex_on /\
+  power_line ex_hlc ex_on (bs "off L,R,T,nosuch,L"%string) = Some (COff, [bs "L"; bs "R"; bs "T"; bs "nosuch"; bs "L"]%string) /\
+  in_domain ex_on COff [bs "L"; bs "R"; bs "T"; bs "nosuch"; bs "L"]%string = true /\
+  known_targets ex_on [bs "L"; bs "R"; bs "T"; bs "nosuch"; bs "L"]%string = [bs "L"; bs "R"; bs "T"; bs "L"]%string /\
+  (exists st', run_line ex_hlc ex_on (bs "off L,R,T,nosuch,L"%string) [0; 1; 0; 1]%nat = Ok (st', false) /\
+               answered st' = [bs "T"; bs "R"; bs "L"; bs "L"]%string /\ reported_unknown st' = [bs "nosuch"%string]).
+Proof.
+  split; [apply at_prompt_b; reflexivity|]. split; [apply ts_covers_b; reflexivity|].
+  repeat (split; [vm_compute; reflexivity|]). eexists. split; [vm_compute; reflexivity|]. split; vm_compute; reflexivity.
+Qed.
+Print Assumptions C19_always_answers.
+
+(* preservation: whatever an in-domain stat/on/off line returns, the hypotheses of all theorems hold again *)
+Theorem C19_wf_power : forall hlc st ln sched c ts st' q,
+  at_prompt st -> ts_covers st -> power_line hlc st ln = Some (c, ts) -> in_domain st c ts = true ->
+  run_line hlc st ln sched = Ok (st', q) -> at_prompt st' /\ ts_covers st' /\ same_cfg st' st /\ q = false.
+Proof. exact wf_power. Qed.
+Print Assumptions C19_wf_power.
+
+(* sessions: from any well-formed state (C19_wf_init: the start state is one), over ANY list of lines with ANY schedules,
+   every line is answered and leaves a well-formed state, as long as the lines so far were admissible in the states
+   reached (admissible = not stat/on/off at all, or stat/on/off inside the domain of the rules) *)
+Theorem C19_sequence : forall hlc ls st, at_prompt st -> ts_covers st -> session_ok hlc st ls.
+Proof. exact sequence. Qed.
+Example C19_sequence_nonvacuous :
+  admissible ex_hlc ex_on (bs "stat L,R,M,T"%string) /\ admissible ex_hlc ex_on (bs "setplugs X 9"%string) /\
+  (session_ok ex_hlc ex_on [(bs "stat L,R"%string, [])] ->
+   exists st', run_line ex_hlc ex_on (bs "stat L,R"%string) [] = Ok (st', false) /\ at_prompt st').
+Proof.
+  split; [right; eexists; eexists; split; vm_compute; reflexivity|].
+  split; [left; intros w args H; vm_compute in H; inversion H; subst; vm_compute; reflexivity|].
+  cbn [session_ok]. intros H. destruct H as (st' & q & RL & (AP & _) & _).
+  - right. eexists. eexists. split; vm_compute; reflexivity.
+  - exists st'. pose proof (C19_wf_power ex_hlc ex_on (bs "stat L,R"%string) [] CStat [bs "L"; bs "R"]%string st' q) as W.
+    destruct W as (_ & _ & _ & ->); [apply at_prompt_b; reflexivity | apply ts_covers_b; reflexivity | vm_compute; reflexivity | vm_compute; reflexivity | exact RL|].
+    split; [exact RL | exact AP].
+Qed.
+Print Assumptions C19_sequence.
+
+(* ------------------------------------------------------------------------------------------------------------------
    (* OPEN *)  The refinement for SEVERAL targets on one line:
 
    Theorem C19_rules : forall hlc st ln sched c ts,
@@ -256,19 +318,16 @@ Print Assumptions C19_wf_single.
                  Permutation (map snd (results st')) (fst (expected_of st c ts)) /\
                  same_status (statmap_of (s_tstat st')) (snd (expected_of st c ts)).
 
-   (which contains C19_terminates / C19_one_line_each / C19_no_lost_waiter of DESIGN.md §5 for every release schedule).
-   PROVED of it: the case of one target at any depth (C19_rules_single: there the helper walks the ancestor chain
-   root-first, one silent query per level, fuel = depth + 4 <= fuel_for), the case `on` with an ancestor/descendant pair
-   among any number of targets (C19_on_parent_and_child_refused), every case where all targets are unknown
-   (C19_survives_unknown_plugs).
-   MISSING: the invariant of the shell loop for several waiters -- every message on waitcmds has an ancestor with a
-   live (not yet processed in this pass, or delayed) message that will call process_waiters for it, live handlers above
-   one waiter lie on one plug, and the potential  sum(active: 3 for an operation, 1 for a query or poll) + 2*|delayed|
-   + sum(waiters: 3 + 2*(levels below the handler))  decreases in every pass under any release schedule; with it
-   fuel_for suffices.  The interplay with plugname_active (stale entries of the pass copy count as active) is what makes
-   it long.  Until then the several-target case rests on the R-RFP correspondence (random sessions, <= 14 plugs, <= 4
-   levels, two release schedules) and the small-scope sweep of props/C19.py, with the extracted RedfishSpec.expected
-   as the monitor; the examples below are computations, not the theorem. *)
+   PROVED of it: termination, prompt, same_cfg, exactly one result line per targeted known plug, no lost waiter, for every
+   target list and release schedule (C19_always_answers: C19_terminates / C19_one_line_each / C19_no_lost_waiter of DESIGN.md
+   section 5); the full statement for one target at any depth (C19_rules_single); `on` with an ancestor/descendant pair among
+   any number of targets (C19_on_parent_and_child_refused); all targets unknown (C19_survives_unknown_plugs).
+   MISSING: that the TEXT of each of those lines and the final status table are the ones of RedfishSpec.expected when there
+   are several targets: the invariant of Proofs/RedfishLive.v has to be refined by "every ancestor above a waiter's handler
+   answered on, and stays on until the waiter is released" (false for off with related targets, where the cascade of an
+   ancestor target decides -- the spec orders targets by depth for that reason).  Until then the text of several-target
+   lines rests on the R-RFP correspondence and the small-scope sweep of props/C19.py, with the extracted
+   RedfishSpec.expected as the monitor; the example below is a computation, not the theorem. *)
 Example C19_rules_several_targets_computed :
   (* three levels, mixed failing hosts, `off R,L,T` with R, M, L on and a slow release schedule: L is answered through
      R's own off (ok), T is refused because S's host fails, R is switched off and takes M and L along *)
